@@ -1,10 +1,10 @@
 package main
 
 import (
-	"sort"
 	"fmt"
 	"os"
 	"regexp"
+	"sort"
 )
 
 func runDiscover(pat string) {
@@ -23,6 +23,23 @@ func runDiscover(pat string) {
 		fmt.Printf("%s  [%s] accept=%d nAccept=%d\n", k, p.Pos(fn.Pos()), sig.Accept, sig.NAccept)
 		for _, f := range sig.Sorted() {
 			fmt.Printf("    %s\n", f)
+		}
+		if sig.NAccept > 1 {
+			acc, _ := acceptReturns(fn, sig.Accept)
+			byStmt := stmtEdges(fn)
+			for _, a := range acc {
+				fmt.Printf("  return at %s:\n", p.Pos(instrPos(a.ret)))
+				var fs []string
+				for s := range byStmt {
+					if r, _ := holdsOnAccept(fn, []acceptRet{a}, byStmt, map[string]bool{s: true}, nil); r == nil && !loopNoise(s) && !sig.Facts[s] {
+						fs = append(fs, s)
+					}
+				}
+				sort.Strings(fs)
+				for _, f := range fs {
+					fmt.Printf("      %s\n", f)
+				}
+			}
 		}
 	}
 }
@@ -62,5 +79,38 @@ func runEffects(pat string) {
 		for _, u := range s.Unknown {
 			fmt.Printf("  unknown: %s\n", u)
 		}
+		ms := eff.Must(fn)
+		var uer []string
+		for l := range ms.UER {
+			uer = append(uer, l.String())
+		}
+		sort.Strings(uer)
+		fmt.Printf("  mustAll: %v\n  mustAcc: %v\n  exposed-reads: %v\n", sortedLocs(ms.MustAll), sortedLocs(ms.MustAcc), uer)
+	}
+}
+
+// runSetters lists setter-like methods whose receiver is not fully defined on accept or whose
+// result depends on the receiver's previous contents (discovery tool for the L18 tables).
+func runSetters(pat string) {
+	re := regexp.MustCompile(pat)
+	p, err := Load(K1)
+	if err != nil {
+		fmt.Println(err)
+		os.Exit(2)
+	}
+	eff := NewEffects(p)
+	for _, fn := range p.RepoFuncs() {
+		if fn.Parent() != nil || fn.Signature.Recv() == nil || !libPkg(relPkg(fnPkgPath(fn))) {
+			continue
+		}
+		k := funcKey(fn)
+		if !re.MatchString(k) {
+			continue
+		}
+		full, exposed := setterVerdict(eff, fn)
+		if full && len(exposed) == 0 {
+			continue
+		}
+		fmt.Printf("%-90s full=%v exposed=%v\n", k, full, exposed)
 	}
 }
